@@ -101,3 +101,30 @@ fn c02_systemtime_values() {
     kani::cover!(r.is_ok());
     kani::cover!(r.is_err());
 }
+
+// decode_fields! types (Duration, ranges, socket addresses) from an INDEFINITE-length array: the value is right and the
+// break is consumed - the position ends after the `ff`, so the next item decodes (C04 "leaves the position exactly at the
+// end of the item"; C01 for the re-framed encoding).  Structure concrete, field values symbolic.
+// @harness name=c04_fields_indef props=C04,C01,C02 kind=complete note="9f 18 a 18 b ff + junk as Range<u8> / RangeInclusive<u8>; 9f 1a secs 1a nanos ff as Duration"
+#[kani::proof]
+#[kani::unwind(5)]
+#[cfg_attr(feature = "alloc", kani::stub(crate::decode::Error::with_message, crate::kani_refspec_stubs::with_message))]
+#[cfg_attr(feature = "alloc", kani::stub(crate::decode::Error::message, crate::kani_refspec_stubs::message))]
+#[kani::stub(crate::decode::Decoder::skip, crate::kani_refspec_stubs::skip_leaf)]
+fn c04_fields_indef() {
+    let a: u8 = kani::any(); let b: u8 = kani::any(); let j: u8 = kani::any();
+    let buf = [0x9fu8, 0x18, a, 0x18, b, 0xff, j];
+    let mut d = Decoder::new(&buf);
+    match <core::ops::Range<u8> as Decode<()>>::decode(&mut d, &mut ()) {
+        Ok(r) => { assert!(r.start == a && r.end == b); assert!(d.position() == 6) }
+        Err(_) => assert!(false)
+    }
+    let s: [u8; 4] = kani::any(); let n: [u8; 4] = kani::any();
+    let buf = [0x9fu8, 0x1a, s[0], s[1], s[2], s[3], 0x1a, n[0], n[1], n[2], n[3], 0xff, j];
+    let mut d = Decoder::new(&buf);
+    let r: Result<core::time::Duration, _> = Decode::decode(&mut d, &mut ());
+    if u32::from_be_bytes(n) < 1_000_000_000 {
+        match r { Ok(v) => { assert!(v.as_secs() == u32::from_be_bytes(s) as u64 && v.subsec_nanos() == u32::from_be_bytes(n)); assert!(d.position() == 12) } Err(_) => assert!(false) }
+    }
+    kani::cover!(true);
+}
